@@ -42,8 +42,9 @@ GROUPS = [
     ("complex-strided", G("CNorm2", "CAxpy", "CDotu", "CDotc", "CScal", "CDscal", "CAsum", "CNrm2"), (70, 5), (70, 20), ""),
 ]
 # unit-stride kernels at long lengths (thorough): formula-valued integer data only
-LONG = [("long-257", 257), ("long-1000", 1000), ("long-4099", 4099), ("long-10000", 10000)]
-LONGF = G("AddTo", "AddScaled", "ScaleTo", "Sum", "Dot", "CumSum", "Norm1", "Norm2", "MaxIdx")
+LONGF = G("AddTo", "AddScaled", "ScaleTo", "Sum", "Dot", "CumSum", "Norm1", "Norm2", "MaxIdx", "CAddScaled", "CDot")
+LONGLIN = G("AddTo", "AddScaled", "ScaleTo", "Sum", "Dot", "Norm1", "Norm2")   # linear-time definitions only
+LONG = [("long-257", 257, LONGF), ("long-1000", 1000, LONGF), ("long-4099", 4099, LONGF), ("long-10000", 10000, LONGLIN)]
 
 
 def run(ctx):
@@ -72,9 +73,9 @@ def run(ctx):
                         subst=dict(FNS=fns, NMIN=0, NMAX=nmax, NVAR=nvar, SEED=seed, EXTRA=extra))
         replay_all(cases, name)
     if thorough:
-        for name, n in LONG:
+        for name, n, fns in LONG:
             cases = ctx.gen("slices/SlicePrims.tla", "slices/SlicePrims_gen.cfg", name="R2 gen " + name,
-                            subst=dict(FNS=LONGF, NMIN=n, NMAX=n, NVAR=2, SEED=seed, EXTRA=""), timeout=1500)
+                            subst=dict(FNS=fns, NMIN=n, NMAX=n, NVAR=2, SEED=seed, EXTRA=""), timeout=1500)
             replay_all(cases, name)
 
     ctx.assumptions += [
